@@ -45,7 +45,7 @@ def floors(tier):
             "counter:tolerance_sequences_checked": 10, "counter:continued_runs": 4, "counter:rejections_observed": 200,
             "class:prior-unif": 8, "class:prior-gamma": 5, "class:prior-norm": 5, "class:logscale": 5, "class:non-model-order": 8,
             "class:nearest-neighbours": 5, "class:tolerance-list": 3, "class:quantile": 10,
-            "class:infers-initial-state": 8, "class:tol-int": 8, "counter:recorded_tolerance_checks": 40, "class:three-or-more-unknowns": 6, "class:re-ordering-not-self-inverse": 3}
+            "class:infers-initial-state": 8, "class:tol-int": 8, "class:legacy-sampler": 6, "counter:recorded_tolerance_checks": 40, "class:three-or-more-unknowns": 6, "class:re-ordering-not-self-inverse": 3}
 
 
 class AbcProbe:
@@ -194,6 +194,11 @@ def run_case(rng, idx, tier, lane, ctx):
     mode = "rejection" if G == 1 else ("tolerance-list" if rng.random() < 0.25 else "quantile")
     seqs = []
     probe = AbcProbe()
+    # 30 %: the run goes through the legacy twin get_posterior_sample_original (same arguments, own accept loop)
+    legacy = rng.random() < 0.3 and hasattr(abc, "get_posterior_sample_original")
+    sampler = abc.get_posterior_sample_original if legacy else abc.get_posterior_sample
+    if legacy:
+        cls.append("legacy-sampler")
     try:
         with probe, contextlib.redirect_stdout(io.StringIO()), np.errstate(all="ignore"):
             if mode == "tolerance-list":
@@ -212,9 +217,9 @@ def run_case(rng, idx, tier, lane, ctx):
                 abc.get_posterior_sample(N=N, tol=tols, G=G, M=M)
                 cls.append("tolerance-list")
             elif mode == "rejection":
-                abc.get_posterior_sample(N=N, tol=tol0, G=1, M=M)
+                sampler(N=N, tol=tol0, G=1, M=M)
             else:
-                abc.get_posterior_sample(N=N, tol=tol0, G=G, q=q, M=M)
+                sampler(N=N, tol=tol0, G=G, q=q, M=M)
                 seqs.append(list(abc.tolerances))
                 cls.append("quantile")
                 if rng.random() < 0.5:
@@ -258,18 +263,28 @@ def run_case(rng, idx, tier, lane, ctx):
             bad("a particle received a weight that is not positive and finite", generation=e["gen"], weight=e["w"])
             break
     # ---- final population: bookkeeping and recomputed costs
-    last = log[-N:]
+    last = log[-N:] if len(log) >= N else None      # the legacy sampler has its own accept loop: no event log, final population only
+    if last is None:
+        counters["runs_without_event_log"] = counters.get("runs_without_event_log", 0) + 1
+        tol_last = float(np.asarray(abc.tolerances, dtype=float)[-1])
     upd = abc._get_update_function()
     sub = set(rng.sample(range(N), min(8, N)))
     tol_x = rs.tol(1e-10)
     for i in range(N):
         counters["particles_checked"] += 1
-        ev = last[i]
-        if not (np.array_equal(ev["p"], abc.res[i]) and ev["cost"] == abc.dist[i] and ev["w"] == abc.w[i]):
-            bad("stored particle / distance / weight differ from what the generation step returned", index=i)
-            break
-        if not abc.dist[i] < ev["tol"]:
-            bad("stored distance is not below the tolerance of the generation that produced it", index=i, distance=float(abc.dist[i]), tolerance=ev["tol"])
+        if last is not None:
+            ev = last[i]
+            if not (np.array_equal(ev["p"], abc.res[i]) and ev["cost"] == abc.dist[i] and ev["w"] == abc.w[i]):
+                bad("stored particle / distance / weight differ from what the generation step returned", index=i)
+                break
+            if not abc.dist[i] < ev["tol"]:
+                bad("stored distance is not below the tolerance of the generation that produced it", index=i, distance=float(abc.dist[i]), tolerance=ev["tol"])
+        else:
+            if not abc.dist[i] < tol_last:
+                bad("stored distance is not below the recorded tolerance of the last generation", index=i, distance=float(abc.dist[i]), tolerance=tol_last, sampler="get_posterior_sample_original")
+            dens = float(np.prod([pri[j].density(abc.res[i][j]) for j in range(len(pri))]))
+            if not dens > 0:
+                bad("a particle with zero prior density is in the posterior sample", index=i, particle=abc.res[i].tolist(), sampler="get_posterior_sample_original")
         with contextlib.redirect_stdout(io.StringIO()), np.errstate(all="ignore"):
             upd(abc._log_parameters(abc.res[i].copy())[abc.par_order])
             cst = float(obj.cost())
@@ -293,7 +308,7 @@ def run_case(rng, idx, tier, lane, ctx):
     by_gen = {}
     for e in log[-N * len(rec):] if mode != "tolerance-list" else log:
         by_gen.setdefault(e["gen"], e["tol"])
-    if mode != "tolerance-list" and not seqs[1:]:
+    if mode != "tolerance-list" and not seqs[1:] and log:
         for gidx, tval in sorted(by_gen.items()):
             counters["recorded_tolerance_checks"] = counters.get("recorded_tolerance_checks", 0) + 1
             if gidx < len(rec) and not (rec[gidx] == tval or (np.isinf(rec[gidx]) and np.isinf(tval))):
@@ -308,8 +323,8 @@ def run_case(rng, idx, tier, lane, ctx):
             bad("quantile-scheduled tolerances increase", tolerances=alltol)
         if abs(abc.final_tol - alltol[-1]) > 0:
             bad("final_tol is not the tolerance of the last generation", final_tol=float(abc.final_tol), last=alltol[-1])
-    gens = len({e["gen"] for e in log})
-    nontriv = gens >= 2 and counters["rejections_observed"] >= 1
+    gens = len({e["gen"] for e in log}) if log else len(np.atleast_1d(abc.tolerances))
+    nontriv = gens >= 2 and (counters["rejections_observed"] >= 1 or last is None)
     res = {"status": "violated" if wit else "held", "nontrivial": bool(nontriv), "key": canon_hash(sample), "classes": sorted(set(cls)),
            "counters": counters, "sample": sample}
     if wit:
